@@ -33,6 +33,7 @@ pub fn cf_profile(t: &mut Tape) -> Profile {
     }
     p.max_stmts = 6 + t.below(14);
     p.elementwise_first = true;
+    p.all_compound_ops = true;
     p
 }
 
